@@ -94,6 +94,16 @@ MATRIX = [
     dict(entry="atomic", mode="content", initial="canonical", base_hash="current", fmode=0o1600),
     dict(entry="tool", mode="changes", initial="canonical", base_hash="none", fmode=0o000),
     dict(entry="cli_write", mode="content", initial="canonical", base_hash="none", fmode=0o200),
+    # the same document again, over a file that holds it with other line endings
+    dict(entry="cli_write", mode="content", initial="crlf", base_hash="none", resend_initial=True),
+    dict(entry="cli_write", mode="content", initial="crlf", base_hash="none", resend_initial=True, stdin=True),
+    dict(entry="tool", mode="content", initial="crlf", base_hash="none", resend_initial=True),
+    dict(entry="atomic", mode="content", initial="crlf", base_hash="none", resend_initial=True),
+    dict(entry="cli_normalize", mode="content", initial="crlf", base_hash="none", inplace=True),
+    # command-line only: output == input
+    dict(entry="cli_normalize", mode="content", initial="lenient", base_hash="none", inplace=True),
+    dict(entry="cli_seal", mode="content", initial="canonical", base_hash="none", inplace=True, fmode=0o640),
+    dict(entry="cli_normalize", mode="content", initial="canonical", base_hash="none", inplace=True, fmode=0o444),
     # sizes on the far side of every plausible threshold (8 KiB buffers, 64 KiB pipes/slices, 128 KiB): fast paths and
     # fallbacks that only apply to big -- or only to small -- content
     dict(entry="tool", mode="content", initial="canonical", base_hash="current", new_style="huge"),
@@ -164,6 +174,11 @@ def gen_scenario(t: Tape, idx: int, tier: str) -> dict:
                 if sc["mode"] != "content":
                     sc["mode"] = "content"
                     sc["new_style"] = "canonical"
+        if entry in ("cli_normalize", "cli_seal") and sc["initial"] in ("canonical", "lenient", "frontmatter", "corpus", "crlf", "big") \
+                and not sc.get("odd") and t.choose(3, "sc.inplace") == 1:
+            sc["inplace"] = True
+        if sc["mode"] == "content" and sc["initial"] in ("crlf", "crlf_frontmatter", "canonical") and t.choose(6, "sc.resend") == 1:
+            sc["resend_initial"] = True
         if entry == "cli_write" and sc["mode"] == "content":
             sc["stdin"] = bool(t.choose(2, "sc.stdin"))
             sc["new_style"] = t.pick(["canonical", "unicode", "nonl"], "sc.cns")
@@ -178,6 +193,13 @@ def gen_scenario(t: Tape, idx: int, tier: str) -> dict:
     sc["initial_data"] = _enc(_initial_bytes(t, sc["initial"], "I" + m, big))
     if sc["mode"] == "content":
         sc["new_text"] = _new_text(t, sc["new_style"], "N" + m, big)
+        if sc.get("resend_initial") and sc["initial_data"] is not None:
+            # the document the file already holds is sent again (as text: line endings and a BOM do not travel): "nothing to
+            # do" shortcuts that compare TEXT keep bytes on disk that do not hash to what they report
+            try:
+                sc["new_text"] = _dec(sc["initial_data"]).decode("utf-8").replace("\r\n", "\n").replace("\r", "\n")
+            except UnicodeDecodeError:
+                pass
     elif sc["mode"] == "changes":
         sc["changes"] = t.pick([
             {"MARK": "changed_" + m},
@@ -382,7 +404,10 @@ def make_call(sc: dict, root: str, target_rel: str, writer: dict | None = None):
             args += ["--base-hash", bh]
         return lambda: run_cli(args, stdin_text)
     if entry in ("cli_normalize", "cli_seal"):
-        args = [entry[4:], os.path.join(root, "sb/source.oct.md"), "-o", target]
+        # in place: the output names the very file that is read (a CLI-only situation; "skip the temp file, it is the same
+        # file anyway" lives here)
+        src = target if w.get("inplace") else os.path.join(root, "sb/source.oct.md")
+        args = [entry[4:], src, "-o", target]
         return lambda: run_cli(args)
     if entry == "cli_hydrate":
         args = ["hydrate", os.path.join(root, "sb/hsrc/source.oct.md"), "--mapping",
@@ -856,8 +881,9 @@ def make_case(seed: int, idx: int, tier: str, two_writers: bool = False) -> dict
     sc = gen_scenario(t, idx, tier)
     knobs = gen_knobs(t)
     if sc["initial"] in ("big", "corpus", "huge", "over64k") or sc.get("new_style") in ("big", "corpus", "huge", "over64k"):
-        knobs["wchunk"] = max(knobs["wchunk"], 4096)
-        knobs["rchunk"] = max(knobs["rchunk"], 4096)
+        floor = 16384 if "huge" in (sc["initial"], sc.get("new_style")) else 4096
+        knobs["wchunk"] = max(knobs["wchunk"], floor)
+        knobs["rchunk"] = max(knobs["rchunk"], floor)
     if two_writers and sc["entry"] in ("tool", "atomic"):
         t2 = Tape(seed ^ 0x5EC0)
         second = {"entry": t2.pick(["tool", "atomic"], "w2.entry"), "mode": "content",
@@ -871,7 +897,7 @@ def make_case(seed: int, idx: int, tier: str, two_writers: bool = False) -> dict
 def units(tier: str, verif_seed: int) -> list:
     out = []
     if tier == "quick":
-        n_sweep, n_pair, n_rand_units, per = 64, 14, 80, 160
+        n_sweep, n_pair, n_rand_units, per = len(MATRIX), 14, 80, 160  # every named scenario is swept, always
     else:
         n_sweep, n_pair, n_rand_units, per = 1500, 400, 3200, 500
     parts = 4
